@@ -34,7 +34,7 @@ pub fn defs() -> Vec<PropDef> {
             run: |c| run_wire(c, Which::C02),
             replay: |c, v| replay_wire(c, v, Which::C02),
             post: post_wire,
-            rule: "ENUM enumeration of the wire space W0-W6; every case is decoded through four contract-checking implementations of the public Reader trait (slice-backed and owning, each with both behaviours for a bytes() overrun) and through SliceReader; every request is checked against the remaining length and results are compared across readers. Non-trivial: at least one unchecked read / skip / sub-range request was issued beyond the flag word.",
+            rule: "ENUM enumeration of the wire space W0-W6 and of the reveal space (C13's: every value of the decrypted original-length field x attribute types x block counts, where the observer is the panic/abort of reveal's internal SliceReader); every wire case is decoded through four contract-checking implementations of the public Reader trait (slice-backed and owning, each with both behaviours for a bytes() overrun) and through SliceReader; every request is checked against the remaining length and results are compared across readers. Non-trivial: at least one unchecked read / skip / sub-range request was issued beyond the flag word.",
             bounds: wire_bounds,
             assumptions: COMMON_ASSUMPTIONS,
             fd_monitor: false,
@@ -300,9 +300,17 @@ fn run_wire(ctx: &mut Ctx, which: Which) {
         }
     };
     gen::wire(ctx, tier, &mut sink);
+    if which == Which::C02 {
+        // reveal builds its own SliceReader over the decrypted octets: the reveal space (every
+        // value of the decrypted length field, every attribute type) is part of C02's quantifier
+        super::hiding::run_reveal(ctx);
+    }
 }
 
 fn replay_wire(ctx: &mut Ctx, v: &Value, which: Which) {
+    if v["kind"].as_str() == Some("reveal") {
+        return super::hiding::replay_reveal(ctx, v);
+    }
     let entry = v["entry"].as_str().and_then(entry_from);
     let bytes = v["hex"].as_str().and_then(unhex);
     let (Some(entry), Some(bytes)) = (entry, bytes) else {
